@@ -141,6 +141,8 @@ def expr_fn(e):
         return fn_const(e[1] in (1, True, '1', 'True'))
     if op in ('~', 'not'):
         return fn_not(expr_fn(e[1]))
+    if op == 'tt':
+        return fn_norm(e[1], e[2])
     r = expr_fn(e[1])
     for x in e[2:]:
         r = fn_apply('&' if op in ('&', 'and') else '|', r, expr_fn(x))
@@ -159,6 +161,8 @@ def expr_text(e):
         return '~({})'.format(expr_text(e[1]))
     if op == 'not':
         return '(not ({}))'.format(expr_text(e[1]))
+    if op == 'tt':
+        return '(' + fn_dnf_text((tuple(e[1]), e[2])) + ')'
     sym = {'&': ' & ', '|': ' | ', 'and': ' and ', 'or': ' or '}[op]
     return '(' + sym.join('({})'.format(expr_text(x)) for x in e[1:]) + ')'
 
@@ -237,6 +241,14 @@ def gen_plan(seed):
         # at a line event of BDD.py / OBDD.py); findings that need it are
         # reported as EXTENSION-FINDING only
         'p_abort': rng.choice([0.0, 0.0, 0.0, 0.15]),
+        # how much of the history is partial evaluation (cofactor-heavy
+        # runs: restrict merges nodes of one level, a path build/apply
+        # never take)
+        'w_restrict': rng.choice([2, 2, 2, 6, 12]),
+        # dense functions (a random truth table over 4-6 variables, written
+        # as a sum of products): many nodes per level, so that partial
+        # evaluation and apply really merge and split nodes
+        'p_dense': rng.choice([0.0, 0.0, 0.0, 0.25, 0.5]),
     }
 
     def pool():
@@ -273,7 +285,7 @@ def gen_plan(seed):
         kinds = [('build', 14 if filling else 4)]
         if occ:
             kinds += [('combine', 12 if cfg.get('literals_first') else 5),
-                      ('invert', 2), ('restrict', 2),
+                      ('invert', 2), ('restrict', cfg['w_restrict']),
                       ('dnf', 1), ('bad_combine', cfg['w_bad']),
                       ('drop', 0.5 if filling else
                        (3 if crowd else cfg['w_drop'])),
@@ -317,6 +329,12 @@ def gen_plan(seed):
                 d = rng.choice([0, 0, 0, 1] if crowd else [0, 1])
             op = {'k': 'build', 's': slot,
                   'e': gen_expr(rng, d, pool()), 'o': oi}
+            if not crowd and rng.random() < cfg['p_dense'] and \
+                    cfg.setdefault('dense_builds', 0) < 4:
+                cfg['dense_builds'] += 1
+                kd = min(nv, rng.choice([4, 4, 4, 5]))
+                op['e'] = ['tt', sorted(rng.sample(VARS, kd)),
+                           rng.getrandbits(1 << kd)]
             occ[slot] = oi
             built.append((op['e'], oi))
             if len(built) > 12:
@@ -1071,7 +1089,14 @@ def simpler_ops(op):
         yield o
     if op['k'] == 'build':
         e = op['e']
-        if e[0] not in ('v', 'c'):
+        if e[0] == 'tt':
+            for v in e[1]:
+                for b in (0, 1):
+                    vs2, tt2 = fn_restrict((tuple(e[1]), e[2]), v, b)
+                    o = dict(op)
+                    o['e'] = ['tt', list(vs2), tt2]
+                    yield o
+        elif e[0] not in ('v', 'c'):
             for sub in e[1:]:
                 o = dict(op)
                 o['e'] = sub
